@@ -1,6 +1,6 @@
 (* Wire codec for the election-layer acceptor (tie B).
    Input : <inc list> <out list> <events>   events: count then
-             1 n t v r t' v' r' <opt gfrom> | 2 n | 3 n | 4 kind from to t | 5 n | 6 n t v
+             1 n t v r t' v' r' <opt gfrom> | 2 n | 3 n t v | 4 kind from to t | 5 n | 6 n t v
    Output: 1 <number of events>                     every event accepted: the trace is a P execution
            0 <index> <reason> <event code>          first rejected event (reason: 1 pre, 2 guard, 3 post) *)
 From RV Require Import Base.Prelude M.Quorum P.Election P.ElectionAccept Run.Wire.
@@ -15,7 +15,7 @@ Definition dec_event (l : list N) : option (event * list N) :=
       | None => None
       end
   | 2 :: n :: rest => Some (EReady n, rest)
-  | 3 :: n :: rest => Some (EFsync n, rest)
+  | 3 :: n :: t :: v :: rest => Some (EFsync n t v, rest)
   | 4 :: k :: f :: o :: t :: rest => Some (ESend k f o t, rest)
   | 5 :: n :: rest => Some (ECrash n, rest)
   | 6 :: n :: t :: v :: rest => Some (ERestart n t v, rest)
@@ -24,7 +24,7 @@ Definition dec_event (l : list N) : option (event * list N) :=
 
 Definition event_code (e : event) : N :=
   match e with
-  | ECall _ _ _ _ _ _ _ _ => 1 | EReady _ => 2 | EFsync _ => 3
+  | ECall _ _ _ _ _ _ _ _ => 1 | EReady _ => 2 | EFsync _ _ _ => 3
   | ESend k _ _ _ => 40 + k | ECrash _ => 5 | ERestart _ _ _ => 6
   end.
 
